@@ -24,8 +24,9 @@ structure Table where
   count : Int := 0
   buckets : Nat → Bucket := fun _ => {}
 
-def Table.set (t : Table) (i : Nat) (b : Bucket) : Table :=
-  { t with buckets := fun j => if j = i then b else t.buckets j }
+/-- write bucket `i` back and add `δ` to `tab.count` (the `tab.count++` / `tab.count--` of the code) -/
+def Table.put (t : Table) (i : Nat) (b : Bucket) (δ : Int) : Table :=
+  { t with buckets := fun j => if j = i then b else t.buckets j, count := t.count + δ }
 
 /-- `bucket.bump`: when the node is present, its FIRST occurrence moves to the front -/
 def bump (b : Bucket) (n : Nat) : Bucket × Bool :=
@@ -35,59 +36,65 @@ def bump (b : Bucket) (n : Nat) : Bucket × Bool :=
 def delRepl (b : Bucket) (n : Nat) : Bucket :=
   { b with replacements := b.replacements.filter (· ≠ n) }
 
+/-- body of `Table.add` on the node's bucket: new bucket, change of `tab.count`, contested node -/
+def addB (b : Bucket) (n : Nat) : Bucket × Int × Option Nat :=
+  if n ∈ b.entries then ((bump b n).1, 0, none)
+  else if b.entries.length < bucketSize then ({ b with entries := n :: b.entries }, 1, none)
+  else
+    let r := (b.replacements.filter (· ≠ n)) ++ [n]
+    let r := if r.length > bucketSize then r.tail else r
+    ({ b with replacements := r }, 0, b.entries.getLast?)
+
 /-- `Table.add`; the second component is the contested node (`nil` = none) -/
 def add (dist : Nat → Nat) (t : Table) (n : Nat) : Table × Option Nat :=
   if n = t.self then (t, none)
   else
-    let i := dist n
-    let b := t.buckets i
-    if n ∈ b.entries then (t.set i (bump b n).1, none)
-    else if b.entries.length < bucketSize then
-      ({ t.set i { b with entries := n :: b.entries } with count := t.count + 1 }, none)
-    else
-      let r := (b.replacements.filter (· ≠ n)) ++ [n]
-      let r := if r.length > bucketSize then r.tail else r
-      (t.set i { b with replacements := r }, b.entries.getLast?)
+    let r := addB (t.buckets (dist n)) n
+    (t.put (dist n) r.1 r.2.1, r.2.2)
 
-/-- one iteration of the `stuff` loop -/
+/-- one iteration of the `stuff` loop on the node's bucket -/
+def stuffB (b : Bucket) (n : Nat) : Bucket × Int :=
+  if n ∈ b.entries then (b, 0)
+  else if b.entries.length < bucketSize then ({ b with entries := b.entries ++ [n] }, 1)
+  else (b, 0)
+
 def stuff1 (dist : Nat → Nat) (t : Table) (n : Nat) : Table :=
   if n = t.self then t
   else
-    let i := dist n
-    let b := t.buckets i
-    if n ∈ b.entries then t
-    else if b.entries.length < bucketSize then
-      { t.set i { b with entries := b.entries ++ [n] } with count := t.count + 1 }
-    else t
+    let r := stuffB (t.buckets (dist n)) n
+    t.put (dist n) r.1 r.2
 
 def stuff (dist : Nat → Nat) (t : Table) (ns : List Nat) : Table := ns.foldl (stuff1 dist) t
 
-/-- `Table.delete` -/
-def delete (dist : Nat → Nat) (t : Table) (n : Nat) : Table :=
-  let i := dist n
-  let b := t.buckets i
-  if n ∈ b.entries then { t.set i { b with entries := b.entries.erase n } with count := t.count - 1 }
-  else t.set i (delRepl b n)
+/-- `Table.delete` on the node's bucket -/
+def deleteB (b : Bucket) (n : Nat) : Bucket × Int :=
+  if n ∈ b.entries then ({ b with entries := b.entries.erase n }, -1)
+  else (delRepl b n, 0)
 
-/-- `Table.deleteReplace` -/
-def deleteReplace (dist : Nat → Nat) (t : Table) (n : Nat) : Table :=
-  let i := dist n
-  let b := t.buckets i
+def delete (dist : Nat → Nat) (t : Table) (n : Nat) : Table :=
+  let r := deleteB (t.buckets (dist n)) n
+  t.put (dist n) r.1 r.2
+
+/-- `Table.deleteReplace` on the node's bucket: every occurrence leaves `entries`
+    (`tab.count--` each), then the last replacement is promoted if there is room -/
+def deleteReplaceB (b : Bucket) (n : Nat) : Bucket × Int :=
   let e := b.entries.filter (· ≠ n)
-  let removed : Int := (b.entries.length - e.length : Nat)
+  let removed : Int := ((b.entries.length - e.length : Nat) : Int)
   let r := b.replacements.filter (· ≠ n)
   match r.getLast? with
   | some last =>
-    if e.length < bucketSize then
-      { t.set i { entries := last :: e, replacements := r.dropLast } with count := t.count - removed + 1 }
-    else { t.set i { entries := e, replacements := r } with count := t.count - removed }
-  | none => { t.set i { entries := e, replacements := r } with count := t.count - removed }
+    if e.length < bucketSize then ({ entries := last :: e, replacements := r.dropLast }, -removed + 1)
+    else ({ entries := e, replacements := r }, -removed)
+  | none => ({ entries := e, replacements := r }, -removed)
+
+def deleteReplace (dist : Nat → Nat) (t : Table) (n : Nat) : Table :=
+  let r := deleteReplaceB (t.buckets (dist n)) n
+  t.put (dist n) r.1 r.2
 
 /-- `bucket.bump` on the node's bucket (the hook's `Bump`) -/
 def bumpOp (dist : Nat → Nat) (t : Table) (n : Nat) : Table × Bool :=
-  let i := dist n
-  let r := bump (t.buckets i) n
-  (t.set i r.1, r.2)
+  let r := bump (t.buckets (dist n)) n
+  (t.put (dist n) r.1 0, r.2)
 
 inductive Op where
   | add (n : Nat)
